@@ -8,6 +8,6 @@ CONSTANTS
   Ops = {"Merge"}
   MaxDepth = 1
   MaxWs = 1000
-INVARIANTS C04_RegionPreserved C04_Exact C04_Idempotent C04_MirrorSymmetric
+INVARIANTS C04_StepsAssemble C04_RegionPreserved C04_Exact C04_Idempotent C04_MirrorSymmetric
 
 CHECK_DEADLOCK FALSE
